@@ -19,7 +19,7 @@ BOUNDS = {
     "quick": "1x1 1x2 1x3 2x1 2x2 3x2q 1x2w big (see mc/mspace.py for alphabets) + polyhedra of abc/explicit models",
     "thorough": "quick + 2x2b 2x3 3x2 2x2T 1x3T 2x3T 3x3T + polyhedra of abt/explicit, diamond/explicit",
 }
-QUICK = ["1x1", "1x2", "1x3", "2x1", "2x2", "3x2q", "1x2w", "big"]
+QUICK = ["1x1", "1x2", "1x3", "2x1", "2x2", "3x2q", "1x2w", "big", "narrow"]
 THOROUGH = QUICK + ["2x2p", "2x3q", "2x2b", "2x3", "3x2", "2x2T", "1x3T", "2x3T", "3x3T"]
 QUICK_MODELS = ["abc/explicit"]
 THOROUGH_MODELS = ["abc/explicit", "abt/explicit", "diamond/explicit"]
